@@ -192,8 +192,24 @@ def gen_write(rel, content):
     return True
 
 
+def regen_roots():
+    """Driver/Main.lean and AsmjitVerif.lean are derived from the directory listing so that adding a
+    property means adding files only (Driver/Cxx.lean with `def main : IO Unit`, Props/Cxx.lean)."""
+    comps = sorted(f.stem for f in (LEAN / "Driver").glob("C[0-9][0-9]*.lean"))
+    main = "".join("import Driver.%s\n" % c for c in comps)
+    main += "\ndef main (args : List String) : IO UInt32 := do\n  match args with\n"
+    main += "".join('  | ["%s"] => Driver.%s.main; return 0\n' % (c, c) for c in comps)
+    main += '  | _ => IO.eprintln "usage: vdriver <component>"; return 2\n'
+    gen_write("Driver/Main.lean", main)
+    mods = []
+    for sub in ("Model", "Spec", "Lemmas", "Props"):
+        mods += sorted("AsmjitVerif.%s.%s" % (sub, f.stem) for f in (LEAN / "AsmjitVerif" / sub).glob("*.lean"))
+    gen_write("AsmjitVerif.lean", "".join("import %s\n" % m for m in mods))
+
+
 def lake_build(targets, timeout=3600):
     """Returns (ok, output). Serialised: lake is not safe to run twice in one workspace."""
+    regen_roots()
     with Lock("lake"):
         t0 = time.time()
         p = sh(["lake", "build", *targets], cwd=LEAN, timeout=timeout)
